@@ -41,6 +41,7 @@ type Prog struct {
 	NFuncs  int // functions with bodies in the two library packages (incl. closures, instances)
 	GOARCH  string
 	modFunc map[*ssa.Function]bool
+	uniq    map[*ssa.Function][]ssa.CallInstruction
 }
 
 // Load type-checks and builds SSA for every package of the module in dir.
@@ -123,6 +124,7 @@ func Load(dir string, goarch string) (*Prog, error) {
 		}
 	}
 	p.CHA = cha.CallGraph(prog)
+	curProg = p
 	return p, nil
 }
 
@@ -170,7 +172,15 @@ func Short(s string) string {
 
 // Fn looks a library function up by its short SSA name, e.g. "(*column.Txn).commit",
 // "column.NewCollection", "(*column.Txn).commit$1", "(*column.numericColumn[T]).load".
-func (p *Prog) Fn(name string) *ssa.Function { return p.byName[name] }
+func (p *Prog) Fn(name string) *ssa.Function {
+	if f := os.Getenv("COLVET_LOG_ANCHORS"); f != "" {
+		if fh, err := os.OpenFile(f, os.O_APPEND|os.O_CREATE|os.O_WRONLY, 0o644); err == nil {
+			fmt.Fprintln(fh, name)
+			fh.Close()
+		}
+	}
+	return p.byName[name]
+}
 
 // FuncNames lists the short names of all library functions with bodies, sorted.
 func (p *Prog) FuncNames() []string {
